@@ -369,7 +369,16 @@ pub fn form_preserving_digit(rng: &mut Rng, line: &[u8], lx: &Lex) -> Option<Vec
             }
             Err(_) => false,
         };
-        if ok {
+        // keep the numbering valid (1 <= k <= n): "well-formed" must not depend on whether a
+        // parser chooses to police the numbering before or after the checksum
+        let num = |which: usize| -> Option<u32> {
+            std::str::from_utf8(&out[lx.fields[which].clone()]).ok()?.parse::<u32>().ok()
+        };
+        let numbering_ok = match (num(1), num(2)) {
+            (Some(n), Some(k)) => k >= 1 && k <= n,
+            _ => false,
+        };
+        if ok && numbering_ok {
             return Some(out);
         }
     }
